@@ -453,9 +453,19 @@ pub fn boxed_case(t: &[&str]) -> String {
         }
         "hb" => {
             let arch = if u32::from_le_bytes(hb[4..8].try_into().unwrap()) == 4 { h::HeaderTagISA::MIPS32 } else { h::HeaderTagISA::I386 };
-            let b = h::Builder::new(arch).build();
-            let hdr = b.header().clone();
-            boxed_one(hdr, &refs, |x| x.length() as usize)
+            let magic = u32::from_le_bytes(hb[0..4].try_into().unwrap());
+            if magic == h::MAGIC {
+                let b = h::Builder::new(arch).build();
+                let hdr = b.header().clone();
+                boxed_one(hdr, &refs, |x| x.length() as usize)
+            } else {
+                // a header with a FOREIGN magic: obtained through ref_from_slice (which does not look at the magic)
+                let mut img = crate::util::Aligned16([0u8; 16]);
+                img.0.copy_from_slice(&hb[0..16]);
+                img.0[8..12].copy_from_slice(&16u32.to_le_bytes());
+                let hdr = DynSizedStructure::<h::Multiboot2BasicHeader>::ref_from_slice(&img.0).unwrap().header().clone();
+                boxed_one(hdr, &refs, |x| x.length() as usize)
+            }
         }
         k => format!("unknown-kind:{}", k),
     })
